@@ -14,13 +14,13 @@ def evaluate(sid, src, checks, seeds=(0,)):
     res = {}
     try:
         patch = os.path.join(src, 'patch.diff')
-        rc, _ = sh('/venv/bin/python %s %s' % (os.path.join(src, 'demo.py'), W), cwd=W)
+        rc, _ = sh('/venv/bin/python %s %s' % (os.path.join(src, 'demo.py'), W), cwd=W, env=dict(os.environ, PYTHONPATH=W))
         res['demo_exit_clean'] = rc
         rc, out = sh('git apply %s' % patch, cwd=W)
         res['patch_applies'] = rc == 0
         if rc != 0:
             return res
-        rc, _ = sh('/venv/bin/python %s %s' % (os.path.join(src, 'demo.py'), W), cwd=W)
+        rc, _ = sh('/venv/bin/python %s %s' % (os.path.join(src, 'demo.py'), W), cwd=W, env=dict(os.environ, PYTHONPATH=W))
         res['demo_exit_changed'] = rc
         rc, out = sh('/venv/bin/python -m pytest -q -p no:cacheprovider --timeout=900 2>&1 | tail -1', cwd=W)
         res['tests'] = out.strip()
